@@ -98,6 +98,8 @@ def explore(ctx, which):
                          % (idx, json.dumps(cases[s + idx[0]][2])[:600])))
         else:
             corr.append(("next-run:" + name, True, ""))
+    import kernel_tie
+    corr.append(kernel_tie.obligation())
     rule = ("random rulesets (1-4 base structures + duplicates, 1-5 positions, types drawn with repetition, 1-5 "
             "probability groups per variable, probabilities from a pool built to collide: ties, dyadics, one-ulp "
             "neighbours, subnormals, 0.0, 1.0; every tenth ruleset from the near-tie family: three or four two-group variables whose "
